@@ -1670,6 +1670,37 @@ Lemma reset_init : reset_rctx init_rctx = init_rctx.
 Proof. reflexivity. Qed.
 
 (* ------------------------------------------------------------------ *)
+(* 4b. Type caches over type graphs: a failed generation inside a CYCLE   *)
+(* ------------------------------------------------------------------ *)
+
+(* 1 = struct T { Next *T; Bad chan int }, 2 = *T, 3 = chan int *)
+Definition tb_cycle : gtable := [(1, GComp [2; 3]); (2, GComp [1]); (3, GBad)].
+(* T{} : the nil field Next is omitted (OmitFieldEmpty), Bad is never reached *)
+Definition v_T0 : vtree := VT [None; None].
+(* a nil pointer to T, and &T{} *)
+Definition v_nilptr : vtree := VT [None].
+Definition v_ptrT0 : vtree := VT [Some v_T0].
+
+(* Marshal(T{}) fails (chan int), as on a fresh marshaler; but the iterator of *T, finished
+   while T was in progress, stays in the map with T's placeholder inside.  A later
+   Marshal of a nil *T is ANSWERED by the reused marshaler and refused by a fresh one. *)
+Lemma gcache_cycle_witness :
+  run_all (gcache_call tb_cycle) gcache_init [(1, v_T0); (2, v_nilptr); (2, v_ptrT0); (1, v_T0)] = [CErr; COk; CErr; CErr] /\
+  run_fresh gcache_init (gcache_call tb_cycle) (2, v_nilptr) = CErr /\
+  g_map (fst (gcache_call tb_cycle gcache_init (1, v_T0))) = [(2, 2)].
+Proof. vm_compute. repeat split; reflexivity. Qed.
+
+Lemma gcache_cycle_refuted : exists tb h op,
+  run_reused gcache_init (gcache_call tb) h op <> run_fresh gcache_init (gcache_call tb) op.
+Proof. exists tb_cycle, [(1, v_T0)], (2, v_nilptr). vm_compute. discriminate. Qed.
+
+(* without the cycle (the unsupported kind behind a pointer, 1 = struct { P *S }, 2 = *S,
+   3 = struct S { C chan int }, 4 = chan int) nothing of the failed generation stays behind *)
+Example gcache_acyclic_clean :
+  g_map (fst (gcache_call [(1, GComp [2]); (2, GComp [3]); (3, GComp [4]); (4, GBad)] gcache_init (1, VT [Some (VT [None])]))) = [].
+Proof. vm_compute. reflexivity. Qed.
+
+(* ------------------------------------------------------------------ *)
 (* 6. Marshaler and unmarshaler as owners of their parts                *)
 (* ------------------------------------------------------------------ *)
 
@@ -1705,7 +1736,15 @@ Lemma full_refuted :
      (forall history es,
         run_reused cte_init cte_call history es = run_fresh cte_init cte_call es) /\
      (forall dynamic history t,
-        run_reused cache_init (cache_call dynamic) history t = run_fresh cache_init (cache_call dynamic) t)).
+        run_reused cache_init (cache_call dynamic) history t = run_fresh cache_init (cache_call dynamic) t) /\
+     (forall tb history op,
+        run_reused gcache_init (gcache_call tb) history op = run_fresh gcache_init (gcache_call tb) op)).
 Proof.
   intros (_ & _ & _ & H & _). destruct cte_refuted as [h [es N]]. apply N, H.
 Qed.
+
+(* ... and so does the statement for the type caches alone, over self-referential types *)
+Lemma cache_graph_refuted :
+  ~ (forall tb history op,
+       run_reused gcache_init (gcache_call tb) history op = run_fresh gcache_init (gcache_call tb) op).
+Proof. intros H. destruct gcache_cycle_refuted as [tb [h [op N]]]. apply N, H. Qed.
